@@ -301,16 +301,22 @@ def table_obligation(ctx, table, consts, props="C04.Props", inst="C04_segmentati
 
 
 def coq_mismatches_retry(ctx, tag, hdr, terms, chk, shard, targets):
-    """ctx.coq_mismatches, retried once after a rebuild: C03 and C04 share coq/C04, and a clean rebuild
-    by the other check (thorough tier) can remove a .vo while the generated case files are compiled"""
-    n = len(ctx.brokens)
-    mm = ctx.coq_mismatches(tag, hdr, terms, chk, shard=shard)
+    """ctx.coq_mismatches with the terms dealt round-robin over the shards (expensive cases - 64 KiB of
+    early data, 8 KiB obfs4 handshakes - are generated next to each other and would otherwise all land
+    in one coqc process), retried once after a rebuild: C03 and C04 share coq/C04, and a clean rebuild
+    by the other check (thorough tier) can remove a .vo while the generated case files are compiled."""
+    n = len(terms)
+    nsh = max(1, -(-n // shard))
+    order = [i for k in range(nsh) for i in range(k, n, nsh)]
+    dealt = [terms[i] for i in order]
+    nb0 = len(ctx.brokens)
+    mm = ctx.coq_mismatches(tag, hdr, dealt, chk, shard=shard)
     if mm is None:
-        del ctx.brokens[n:]
+        del ctx.brokens[nb0:]
         time.sleep(5)
         ctx.coq_make(targets)
-        mm = ctx.coq_mismatches(tag + "r", hdr, terms, chk, shard=shard)
-    return mm
+        mm = ctx.coq_mismatches(tag + "r", hdr, dealt, chk, shard=shard)
+    return None if mm is None else sorted(order[j] for j in mm)
 
 
 def run_go(ctx, cases, test="^TestVerifC04$", files=None, timeout=1500):
